@@ -21,6 +21,7 @@ func init() {
 		ID:    "C18",
 		Level: "exploration",
 		Rule: "histories: seeded random sequences of 10-120 table.insert/remove/concat/maxn/getn/unpack/sort calls and direct assignments on one list, " +
+			"one history in 25 starts with 2559-8000 appended elements (lists longer than half / all of the default value stack; unpack of thousands of values may then fail with the stack limit); one in 12 ends with table.insert(t, pos, nil); " +
 			"each step compared with a Go slice model (results + full read-back rawget 1..n+2 and #t); non-trivial = >=10 steps with >=3 distinct op kinds and >=1 element removed; " +
 			"sorts: element multisets x comparator kinds (strict weak orders and inconsistent/failing ones), non-trivial = >=3 elements and >=2 comparator calls; distinct by content hash",
 		Assumptions: []string{
